@@ -84,6 +84,25 @@ func sqlC06(args []string) error {
 		}
 	}
 
+	if envStart() == 0 {
+		// one dedicated scenario: a string column that holds the values the engine uses in-band as minus / plus infinity
+		// of the string type, compared with every operator against every value (KF-C06-varchar-sentinel)
+		s, err := newRun(tw, ctxName("C06"), 400)
+		if err != nil {
+			return err
+		}
+		t := &tableDef{name: "sent0", cols: []string{"int", "svarchar"}, names: []string{"c0", "c1"}, kinds: []string{"none", "skiplist"}}
+		s.createAPI(t)
+		for r := 0; r < NRanks; r++ {
+			s.insert(t, [][]int{{1, r}}, nil)
+		}
+		s.scan(t)
+		for _, op := range cmpOps {
+			for r := 0; r < NRanks; r++ {
+				s.selectQ(t, atom(1, op, r), nil, false)
+			}
+		}
+	}
 	for sc := envStart(); sc < nscen; sc++ {
 		rng := scenarioRng(sc)
 		if sc%8 == 7 {
